@@ -288,13 +288,139 @@ theorem dpow_normal (sh e : Nat) : 2 ^ sh * 2 ^ 64 * (2 ^ 64 * 5 ^ e) * 2 = 2 ^ 
 theorem dpow_sub (sh e t : Nat) : 2 ^ sh * 2 ^ 64 * (2 ^ 64 * 5 ^ e) * 2 ^ t * 2 = 2 ^ (sh + 129 + t) * 5 ^ e := by
   rw [Nat.pow_add, Nat.pow_add]; ring
 
+/-- **`cfRound` on a product with `lo ≥ 2`, subnormal branch**: the answer encodes the half-to-even quotient of the
+computed `z = hi·2^64 + lo` -/
+theorem cfRound_computed_sub {F p eb sm lg rlo rhi} (LL : LemLayout F p eb sm lg rlo rhi) (q : Int) (lo hi lz : Nat)
+    (hlo2 : 2 ≤ lo) (hlo : lo < 2 ^ 64) (hhi_lt : hi < 2 ^ 64) (hhi_ge : 2 ^ 62 ≤ hi) (u sh : Nat)
+    (hu : hi / 2 ^ 63 = u) (hshv : u + 62 - p = sh) (t : Nat) (ht : 1 ≤ t)
+    (hpw2 : power (wrapI32 q) + (u : Int) - (lz : Int) - F.C.minimumExponent = 1 - (t : Int)) :
+    ∃ fp, cfRound F q lo hi lz = .ok fp ∧ 0 ≤ fp.exp ∧
+      extendedToFloat F fp = encode F.fmt 0 (rhe (hi * 2 ^ 64 + lo) (2 ^ sh * 2 ^ 64 * 2 ^ t * 2)) ∧
+      rhe (hi * 2 ^ 64 + lo) (2 ^ sh * 2 ^ 64 * 2 ^ t * 2) ≤ 2 ^ (p - 1) := by
+  have hB := Nat.two_pow_pos 64
+  have hzB : (hi * 2 ^ 64 + lo) / 2 ^ 64 = hi := by
+    rw [Nat.mul_comm, Nat.mul_add_div hB, Nat.div_eq_of_lt hlo, Nat.add_zero]
+  have hquot : hi / 2 ^ sh = (hi * 2 ^ 64 + lo) / (2 ^ sh * 2 ^ 64) := by
+    rw [Nat.mul_comm (2 ^ sh), ← Nat.div_div_eq_div_mul, hzB]
+  apply cfRound_sub LL q lo hi lz hhi_lt hhi_ge u sh hu hshv (hi * 2 ^ 64 + lo) (2 ^ sh * 2 ^ 64) t
+    (Nat.mul_pos (Nat.two_pow_pos _) hB) hquot ht ?_ hpw2
+  intro h
+  have h1 : 2 ^ 64 ∣ hi * 2 ^ 64 + lo :=
+    Nat.dvd_trans ⟨2 ^ sh * 2 ^ t, by ring⟩ (Nat.dvd_of_mod_eq_zero h.1)
+  have h2 : 2 ^ 64 ∣ lo := (Nat.dvd_add_right ⟨hi, Nat.mul_comm _ _⟩).mp h1
+  have := Nat.le_of_dvd (by omega) h2
+  omega
+
+theorem en_lossy_neg_normal (e b u lz bias sh p Lf En : Nat) (hshv : u + 62 - p = sh) (hL : Lf = bias + (p - 1) - 1)
+    (hu : u ≤ 1) (hp : 2 ≤ p) (hp61 : p ≤ 61) (hL127 : 127 ≤ bias + (p - 1) - 1) (hb66 : 66 ≤ b)
+    (hpw : (63 : Int) - e - b + u - lz + bias = ((En + 1 : Nat) : Int)) :
+    (lz + (b + 127) + e - 64) + En = sh + 65 + Lf := by omega
+
+theorem en_lossy_neg_sub (e b u lz bias sh p Lf t : Nat) (hshv : u + 62 - p = sh) (hL : Lf = bias + (p - 1) - 1)
+    (hu : u ≤ 1) (hp : 2 ≤ p) (hp61 : p ≤ 61) (hL127 : 127 ≤ bias + (p - 1) - 1) (hb66 : 66 ≤ b)
+    (hpw : (63 : Int) - e - b + u - lz + bias = 1 - (t : Int)) :
+    (lz + (b + 127) + e - 64) + 0 = sh + 65 + t + Lf := by omega
+
+/-- the lossy answer on a fall-back input of a row `−e ≤ −28` (normal, subnormal or zero) -/
+theorem lossyOK_neg {F p eb sm lg rlo rhi} (LL : LemLayout F p eb sm lg rlo rhi) (e b lz hi lo w : Nat)
+    (hb66 : 66 ≤ b) (hlz : lz ≤ 63) (hlo : lo < 2 ^ 64) (hall : lo + 1 = 2 ^ 64)
+    (hhi : hi < 2 ^ 64) (hhi62 : 2 ^ 62 ≤ hi)
+    (hpow : power (wrapI32 (-(e : Int))) = 63 - (e : Int) - (b : Int))
+    (hlossy : computeFloat F (-(e : Int)) w true = cfRound F (-(e : Int)) lo hi lz)
+    (hzl : (hi * 2 ^ 64 + lo) * (2 ^ 64 * 5 ^ e) ≤ w * 2 ^ lz * 2 ^ (b + 127))
+    (hzu : w * 2 ^ lz * 2 ^ (b + 127) * 2 ^ 61 ≤ (hi * 2 ^ 64 + lo) * (2 ^ 64 * 5 ^ e) * (2 ^ 61 + 1)) :
+    LossyOK F (-(e : Int)) w w (10 ^ e) := by
+  have lay := LL.lay
+  have hf := lay.wf
+  have hp := lay.hp; have hp64 := lay.hp64; have heb := lay.heb
+  have hfp : F.fmt.p = p := by rw [lay.fmt]
+  have hp61 : p ≤ 61 := by
+    have h1 := lay.hpb
+    have : eb ≠ 2 := by intro h; subst h; omega
+    omega
+  generalize hu : hi / 2 ^ 63 = u
+  generalize hshv : u + 62 - p = sh
+  have hu01 : u ≤ 1 := by
+    rw [← hu]
+    have : hi / 2 ^ 63 < 2 := by
+      rw [Nat.div_lt_iff_lt_mul (Nat.two_pow_pos _)]; omega
+    omega
+  have hL := L_eq lay
+  have hL127 := lay.hL127
+  have hpwv : power (wrapI32 (-(e : Int))) + (u : Int) - (lz : Int) - F.C.minimumExponent =
+      (63 : Int) - e - b + u - lz + ((2 ^ (eb - 1) - 1 : Nat) : Int) := by
+    rw [hpow, LL.minimum]; omega
+  have h10 : (10 : Nat) ^ e = 5 ^ e * 2 ^ e := by rw [← Nat.mul_pow]
+  -- the value bounds, common to both branches
+  have hb1 : (hi * 2 ^ 64 + lo) * 10 ^ e ≤ w * 2 ^ (lz + (b + 127) + e - 64) := by
+    have h1 : ((hi * 2 ^ 64 + lo) * 5 ^ e) * 2 ^ 64 ≤ w * 2 ^ (lz + (b + 127)) := by
+      calc ((hi * 2 ^ 64 + lo) * 5 ^ e) * 2 ^ 64 = (hi * 2 ^ 64 + lo) * (2 ^ 64 * 5 ^ e) := by ring
+        _ ≤ w * 2 ^ lz * 2 ^ (b + 127) := hzl
+        _ = w * 2 ^ (lz + (b + 127)) := by rw [Nat.pow_add 2 lz]; ring
+    have h2 := pow_shift_le ((hi * 2 ^ 64 + lo) * 5 ^ e) w _ _ e (lz + (b + 127) + e - 64) h1 (by omega)
+    calc (hi * 2 ^ 64 + lo) * 10 ^ e = ((hi * 2 ^ 64 + lo) * 5 ^ e) * 2 ^ e := by rw [h10]; ring
+      _ ≤ w * 2 ^ (lz + (b + 127) + e - 64) := h2
+  have hb2 : w * 2 ^ (lz + (b + 127) + e - 64) * 2 ^ 61 ≤ (hi * 2 ^ 64 + lo) * 10 ^ e * (2 ^ 61 + 1) := by
+    have h1 : (w * 2 ^ 61) * 2 ^ (lz + (b + 127)) ≤ ((hi * 2 ^ 64 + lo) * 5 ^ e * (2 ^ 61 + 1)) * 2 ^ 64 := by
+      calc (w * 2 ^ 61) * 2 ^ (lz + (b + 127)) = w * 2 ^ lz * 2 ^ (b + 127) * 2 ^ 61 := by
+            rw [Nat.pow_add 2 lz]; ring
+        _ ≤ (hi * 2 ^ 64 + lo) * (2 ^ 64 * 5 ^ e) * (2 ^ 61 + 1) := hzu
+        _ = ((hi * 2 ^ 64 + lo) * 5 ^ e * (2 ^ 61 + 1)) * 2 ^ 64 := by ring
+    have h2 := pow_shift_le (w * 2 ^ 61) ((hi * 2 ^ 64 + lo) * 5 ^ e * (2 ^ 61 + 1)) _ _
+      (lz + (b + 127) + e - 64) e h1 (by omega)
+    calc w * 2 ^ (lz + (b + 127) + e - 64) * 2 ^ 61 = (w * 2 ^ 61) * 2 ^ (lz + (b + 127) + e - 64) := by ring
+      _ ≤ ((hi * 2 ^ 64 + lo) * 5 ^ e * (2 ^ 61 + 1)) * 2 ^ e := h2
+      _ = (hi * 2 ^ 64 + lo) * 10 ^ e * (2 ^ 61 + 1) := by rw [h10]; ring
+  have hd' : 0 < 2 ^ (lz + (b + 127) + e - 64) := Nat.two_pow_pos _
+  by_cases hnormal : (1 : Int) ≤ (63 : Int) - e - b + u - lz + ((2 ^ (eb - 1) - 1 : Nat) : Int)
+  · obtain ⟨En, hEn⟩ : ∃ En : Nat, (63 : Int) - e - b + u - lz + ((2 ^ (eb - 1) - 1 : Nat) : Int) = ((En + 1 : Nat) : Int) :=
+      ⟨((63 : Int) - e - b + u - lz + ((2 ^ (eb - 1) - 1 : Nat) : Int) - 1).toNat, by omega⟩
+    obtain ⟨fp, hfp1, hfp2, hfp3, hq0lo, hq0hi, hm0lo⟩ := cfRound_computed_normal LL (-(e : Int)) lo hi lz (by omega) hlo
+      hhi hhi62 u sh hu hshv En (by rw [hpwv, hEn])
+    refine ⟨fp, hi * 2 ^ 64 + lo, 2 ^ (lz + (b + 127) + e - 64), by rw [hlossy]; exact hfp1, hfp2, hd', ?_, hb1, hb2⟩
+    rw [hfp3]
+    symm
+    apply roundNE_of_scaled hf (Nat.ne_of_gt hd') En (hi * 2 ^ 64 + lo) _ (2 ^ L F.fmt)
+      (Nat.two_pow_pos _) (Nat.mul_pos (Nat.mul_pos (Nat.two_pow_pos _) (Nat.two_pow_pos _)) (by decide)) rfl
+    · rw [show ∀ a c : Nat, 2 ^ a * 2 ^ 64 * 2 * 2 ^ c = 2 ^ (a + 65 + c) from fun a c => by
+        rw [Nat.pow_add, Nat.pow_add]; ring, ← Nat.pow_add]
+      exact two_pow_congr (en_lossy_neg_normal e b u lz (2 ^ (eb - 1) - 1) sh p (L F.fmt) En hshv hL hu01 hp hp61
+        hL127 hb66 hEn)
+    · intro _; rw [hfp]; exact hq0lo
+    · rw [hfp]; exact hq0hi
+    · intro _
+      rw [hfp]
+      have hTT : 2 ^ p = 2 * 2 ^ (p - 1) := two_pow_pred (by omega)
+      have hdm := Nat.div_mul_le_self hi (2 ^ sh)
+      calc 2 ^ sh * 2 ^ 64 * 2 * 2 ^ (p - 1) = (2 ^ p * 2 ^ sh) * 2 ^ 64 := by rw [hTT]; ring
+        _ ≤ (hi / 2 ^ sh * 2 ^ sh) * 2 ^ 64 := Nat.mul_le_mul_right _ (Nat.mul_le_mul_right _ hm0lo)
+        _ ≤ hi * 2 ^ 64 := Nat.mul_le_mul_right _ hdm
+        _ ≤ hi * 2 ^ 64 + lo := Nat.le_add_right _ _
+  · obtain ⟨t, ht⟩ : ∃ t : Nat, (63 : Int) - e - b + u - lz + ((2 ^ (eb - 1) - 1 : Nat) : Int) = 1 - (t : Int) :=
+      ⟨(1 - ((63 : Int) - e - b + u - lz + ((2 ^ (eb - 1) - 1 : Nat) : Int))).toNat, by omega⟩
+    obtain ⟨fp, hfp1, hfp2, hfp3, hq0le⟩ := cfRound_computed_sub LL (-(e : Int)) lo hi lz (by omega) hlo
+      hhi hhi62 u sh hu hshv t (by omega) (by rw [hpwv, ht])
+    refine ⟨fp, hi * 2 ^ 64 + lo, 2 ^ (lz + (b + 127) + e - 64), by rw [hlossy]; exact hfp1, hfp2, hd', ?_, hb1, hb2⟩
+    rw [hfp3]
+    symm
+    apply roundNE_of_scaled hf (Nat.ne_of_gt hd') 0 (hi * 2 ^ 64 + lo) _ (2 ^ L F.fmt)
+      (Nat.two_pow_pos _) (Nat.mul_pos (Nat.mul_pos (Nat.mul_pos (Nat.two_pow_pos _) (Nat.two_pow_pos _))
+        (Nat.two_pow_pos _)) (by decide)) rfl
+    · rw [show ∀ a c d : Nat, 2 ^ a * 2 ^ 64 * 2 ^ c * 2 * 2 ^ d = 2 ^ (a + 65 + c + d) from fun a c d => by
+        rw [Nat.pow_add, Nat.pow_add, Nat.pow_add]; ring, ← Nat.pow_add]
+      exact two_pow_congr (en_lossy_neg_sub e b u lz (2 ^ (eb - 1) - 1) sh p (L F.fmt) t hshv hL hu01 hp hp61
+        hL127 hb66 ht)
+    · intro h; exact absurd h (Nat.lt_irrefl 0)
+    · rw [hfp]; have := Nat.two_pow_pos (p - 1); omega
+    · intro h; exact absurd h (Nat.lt_irrefl 0)
+
 /-- **`compute_float` on the reciprocal rows truncated down**, `SMALLEST_POWER_OF_TEN ≤ −e ≤ −28`: it answers, and a
 valid answer — normal, subnormal or zero — is `roundNE (w / 10^e)`. -/
 theorem computeFloat_trunc_neg {F p eb sm lg rlo rhi} (LL : LemLayout F p eb sm lg rlo rhi) (hrlo : rlo < 28)
     (e : Nat) (h28 : 28 ≤ e) (hesm : e ≤ sm) (w : Nat) (hw0 : w ≠ 0) (hw : w < 2 ^ 64) :
     ∃ fp, computeFloat F (-(e : Int)) w false = .ok fp ∧
       (0 ≤ fp.exp → extendedToFloat F fp = roundNE F.fmt w (10 ^ e)) ∧
-      (fp.exp < 0 → EstOK F p fp w (10 ^ e)) := by
+      (fp.exp < 0 → EstOK F p fp w (10 ^ e) ∧ LossyOK F (-(e : Int)) w w (10 ^ e)) := by
   have lay := LL.lay
   have hf := lay.wf
   have hp := lay.hp; have hp64 := lay.hp64; have heb := lay.heb
@@ -311,6 +437,10 @@ theorem computeFloat_trunc_neg {F p eb sm lg rlo rhi} (LL : LemLayout F p eb sm 
   have hprec : F.ms + litPrecisionExtra = p + 2 := by rw [hms]; show p - 1 + 3 = p + 2; omega
   obtain ⟨lo, hi, hcpa, hlo, hhi, hzlow, hzup⟩ := cpa_bounds (-(e : Int)) (by omega) (by omega) hi5 lo5
     (by rw [hidx]; exact hrow) hhi5 hlo5 (w * 2 ^ clz64 w) (F.ms + litPrecisionExtra) (by rw [hprec]; omega) hwn2
+  have hlossy : computeFloat F (-(e : Int)) w true = cfRound F (-(e : Int)) lo hi (clz64 w) :=
+    computeFloat_lossy_eq F (-(e : Int)) w lo hi
+      (by intro h; rcases h with h | h; exact hw0 h; rw [LL.smallest] at h; omega)
+      (by rw [LL.largest]; omega) (by rw [hshl]; exact hcpa)
   unfold computeFloat
   rw [if_neg (by intro h; rcases h with h | h; exact hw0 h; rw [LL.smallest] at h; omega),
     if_neg (by rw [LL.largest]; omega)]
@@ -342,7 +472,10 @@ theorem computeFloat_trunc_neg {F p eb sm lg rlo rhi} (LL : LemLayout F p eb sm 
         rw [hl, hAll]; exact Nat.sub_add_cancel (Nat.two_pow_pos 64)
       obtain ⟨hhi62, hlow, hupp⟩ := fallback_bounds (w * 2 ^ lz) hi5 lo5 lo hi (w * 2 ^ lz * 2 ^ (b + 127))
         (5 ^ e) hwn1 hwn2 hhi5n hhi hzlow (hzup.imp id (fun h => ⟨h.2.1, h.2.2⟩)) h5pos hNlo hNhi hall
-      exact estOK_neg lay e b lz hi w hb795 (by omega) hlz hhi hhi62 hpow hlow hupp
+      refine ⟨estOK_neg lay e b lz hi w hb795 (by omega) hlz hhi hhi62 hpow hlow hupp, ?_⟩
+      obtain ⟨_, hzl, hzu⟩ := lossy_bounds (w * 2 ^ lz) hi5 lo5 lo hi (w * 2 ^ lz * 2 ^ (b + 127))
+        (5 ^ e) hwn1 hwn2 hhi5n hhi hzlow (hzup.imp id (fun h => ⟨h.2.1, h.2.2⟩)) h5pos hNlo hNhi hall
+      exact lossyOK_neg LL e b lz hi lo w hb66 hlz hlo hall hhi hhi62 hpow hlossy hzl hzu
   · have hc : (!false && lo == litAllOnes && !false) = false := by
       have : (lo == litAllOnes) = false := by simp [hl]
       rw [this]; simp
